@@ -120,6 +120,10 @@ def run_gosym(job, harness, tier, tmp, ovdir, solver="z3-new", shard=None):
            "-query-timeout", str(60000 if tier == "quick" else 300000), "-witness", str(job.get("witness", 4))]
     if shard:
         cmd += ["-shard", f"{shard[0]}/{shard[1]}"]
+    if job.get("assert_include"):
+        cmd += ["-assert-include", job["assert_include"]]
+    if job.get("assert_exclude"):
+        cmd += ["-assert-exclude", job["assert_exclude"]]
     t0 = time.time()
     r = subprocess.run(cmd, env=GOENV, capture_output=True, text=True)
     try:
@@ -298,9 +302,12 @@ def main():
         known = load_known()
         confirmed, mismatches, known_seen = [], [], {}
         by_job = {}
+        inc, exc = P.get("assert_include"), P.get("assert_exclude")
         for h in harness_res:
             seen = set()
             for v in h["violations"] or []:
+                if (inc and not re.search(inc, v["assert"])) or (exc and re.search(exc, v["assert"])):
+                    continue
                 key = (h["harness"], v["assert"])
                 if key in seen:
                     continue
@@ -404,7 +411,7 @@ def main():
             print(f"VIOLATION property={prop} replay={path}")
             log(f"  {rec['harness']} assert={rec['assert']} detail={rec.get('detail')} model={json.dumps({k: (v.get('text') or v.get('v')) for k, v in rec['model'].items()})[:600]}")
         for m in mismatches:
-            infra.append(f"model mismatch (engine/stub defect, not reported as violation): {m['harness']} {m['assert']} {json.dumps(m.get('diffs', {}))[:300]} out={m['replay_output'][:6]}")
+            infra.append(f"model mismatch (engine/stub defect, not reported as violation): {m['harness']} {m['assert']} {json.dumps(m.get('diffs', {}))[:300]} out={m['replay_output'][:6]} model={json.dumps({k: (v.get('text') or v.get('v')) for k, v in m.get('model', {}).items()})[:400]}")
         # --- evidence
         write_evidence(prop, tier, seed, P, harness_res, confirmed, mismatches, known_seen, violations_out, wit_total, wit_ok, infra, time.time() - t0)
         for i in infra:
